@@ -595,12 +595,18 @@ def gen_store(rng):
     for _ in range(rng.randint(1, 8)):
         op = "decrement" if (pn and rng.random() < 0.35) else "increment"
         ops.append([rng.choice([100, 100, 200, 300, 450]), rng.randrange(n), rng.randrange(2), op, rng.choice([1, 1, 2, 2, 3])])
+    # second phase (half of the cases): more writes to the same keys after some gossip rounds have already merged
+    # remote state into the local replicas (write -> gossip -> write -> gossip)
+    if rng.random() < 0.5:
+        for _ in range(rng.randint(1, 4)):
+            op = "decrement" if (pn and rng.random() < 0.35) else "increment"
+            ops.append([rng.choice([1600, 2100, 2100, 2600, 2900]), rng.randrange(n), rng.randrange(2), op, rng.choice([1, 2, 3])])
     return dict(n=n, pn=pn, ops=sorted(ops), seed=rng.randrange(1000), rounds=12 if n == 2 else 24)
 
 
 def impl_store(c):
     """CRDTStores on a loss-free network: the writes, then gossip ticks on every node (push-pull with a random
-    peer), round after round.  Small amounts make VALUE ties between replicas with different states likely."""
+    peer), round after round; second-phase writes land between early rounds.  Small amounts make VALUE ties between replicas with different states likely."""
     import random as _r
     from happysimulator import Event, Instant, Network, Simulation, datacenter_network
     from happysimulator.components.crdt.crdt_store import CRDTStore
@@ -664,7 +670,7 @@ def run(ctx):
     stats = [run_family(ctx, fam, n) for fam in FAMILIES]
     from hsverif.family import run_oracle_only
     ctx.coverage["oracle_only_families"] = [run_oracle_only(ctx, FAM_STORE, ctx.n(60, 600))]
-    ctx.assumptions.append("CRDTStore (gossip entity) has no Coq model: the store family is oracle only (loss-free network, writes then gossip rounds)")
+    ctx.assumptions.append("CRDTStore (gossip entity) has no Coq model: the store family is oracle only (loss-free network, writes before and between gossip rounds)")
     merge_stats(ctx, stats, "random structured histories/op schedules over 2-5 replicas; non-trivial = contains a receive/merge/remove; distinct by JSON of the input")
     ctx.finish_obligations()
     ctx.assumptions += [
